@@ -47,7 +47,7 @@ def build_Q(spec, n):
 
 
 @st.composite
-def measurement_specs(draw, attrs, shape, min_m=1, max_m=5, max_proj=3, max_cells=64, kinds=None, noise_lo=0.1, noise_hi=10.0):
+def measurement_specs(draw, attrs, shape, min_m=1, max_m=5, max_proj=3, max_cells=64, kinds=None, noise_lo=0.1, noise_hi=10.0, tiny_noise=False):
     sizes = dict(zip(attrs, shape))
     m = draw(st.integers(min_m, max_m))
     out = []
@@ -73,8 +73,12 @@ def measurement_specs(draw, attrs, shape, min_m=1, max_m=5, max_proj=3, max_cell
         elif mode == 'reorder':
             base = draw(st.sampled_from(out))['proj']
             proj = list(reversed(base))
+        if tiny_noise and draw(st.integers(0, 5)) == 0:
+            nz = float(10 ** draw(st.floats(-4.5, -1.5)))      # measurements that are very precise relative to the total
+        else:
+            nz = float(10 ** draw(st.floats(math.log10(noise_lo), math.log10(noise_hi)))) if draw(st.booleans()) else 1.0
         out.append({'proj': proj, 'q': draw(q_specs(kinds)),
-                    'noise': float(10 ** draw(st.floats(math.log10(noise_lo), math.log10(noise_hi)))) if draw(st.booleans()) else 1.0,
+                    'noise': nz,
                     'yseed': draw(st.integers(0, 2**31 - 1)),
                     'noise_mult': draw(st.sampled_from([0.0, 1.0, 1.0, 3.0]))})
     return out
@@ -205,10 +209,11 @@ def zero_mask(zspecs, attrs, shape):
 
 @st.composite
 def est_cases(draw, min_attrs=2, max_attrs=4, max_size=4, cap=256, min_m=0, max_m=5, zeros=False, iters=(1, 2, 3, 10, 50),
-              solvers=('MD', 'RDA', 'IG'), totals=(1.0, 10, 1000.0, 37.5, None, None), kinds=None, allow_empty_zero=False, min_size=1, long_cycle=True):
+              solvers=('MD', 'RDA', 'IG'), totals=(1.0, 10, 1000.0, 37.5, None, None), kinds=None, allow_empty_zero=False, min_size=1, long_cycle=True,
+              tiny_noise=False):
     dom = draw(gen.domains(min_attrs, max_attrs, min_size, max_size, cap=cap))
     attrs, shape = dom['attrs'], dom['shape']
-    meas = draw(measurement_specs(attrs, shape, min_m, max_m, max_proj=3, max_cells=64, kinds=kinds)) if max_m > 0 else []
+    meas = draw(measurement_specs(attrs, shape, min_m, max_m, max_proj=3, max_cells=64, kinds=kinds, tiny_noise=tiny_noise)) if max_m > 0 else []
     if max_m >= 3 and len(attrs) >= 3 and draw(st.integers(0, 3)) == 0:
         meas = draw(hub_measurement_specs(attrs, shape, kinds))      # tree of pairwise projections (+ singles)
     witness = [draw(st.integers(0, s - 1)) for s in shape]
